@@ -244,6 +244,14 @@ def check_ethtx(pid, tier, seed, replay):
     w = Work(pid)
     try:
         focus = FOCUS[pid]
+        if replay and os.path.exists(os.path.join(replay, "kind.txt")):
+            import checks_mempool
+            r = checks_mempool.mempool_replay(w, replay)
+            if r["err"]:
+                log("VIOLATION property=%s replay=%s" % (pid, replay))
+                return 1
+            log("replay: accepted")
+            return 0
         if replay and os.path.exists(os.path.join(replay, "vectors.ndjson")):
             import checks_lanes
             return checks_lanes.lanes_replay(pid, w, replay)
@@ -267,6 +275,9 @@ def check_ethtx(pid, tier, seed, replay):
         v.cov["samples"] = [json.loads(x) for x in first[2:5]]
         if pid == "C06":
             v.cov["classes"].update(c06_lane_vectors(v, w, tier, pid))
+        if pid in ("C05", "C06"):
+            import checks_mempool
+            v.cov["classes"].update(checks_mempool.mempool_binding(v, pid, w, tier, seed))
         v.assumptions = ["gas used, gas before refund and frame exit statuses are observed (hook H1), not modelled",
                          "numbers scaled below 2^31 (small-magnitude genesis)", "go-ethereum interpreter trusted"]
         if not vlib.known_findings().get(pid) and v.violations:
